@@ -590,7 +590,7 @@ func main() {
 	}
 	r.Set("configs", 40)
 	r.Set("bounds", plans)
-	r.Rule(fmt.Sprintf("stateless DFS on the real lazyproto code (sync.Pool behind the shim): (third alphabet "complete uses": one step = Decode, read all, fetch no / one / all nested results, read them, Close; all sequences of 3 (thorough 4) uses) (after every Close all OTHER live results and the nested results they handed out are re-read at once) every operation sequence (bounds: %s) over {Decode(input) for each input shape, ReadAll, Nested, NestedAll, ReadNested(+Close on nested, +nested-of-nested), Close} x every answer the pools may give (most-recently-put / any older pooled object / fresh) within the deviation bound, for each of 40 option combinations (mode x maxBuffer {unset,0,1,2,64} x filter {none,halve,zero,identity}). Oracle after every step: every accessor of every live handle equals the reference parse of that handle's own input; no panic; in safe mode the caller's buffer is clobbered right after Decode and every value ever handed out is re-verified after every later step. distinct_nontrivial = executions in which a pooled object was actually recycled. One execution = one state sequence; states/transitions count executions and executed operations (no state merging: no sound cheap key exists for aliasing).", plans))
+	r.Rule(fmt.Sprintf("stateless DFS on the real lazyproto code (sync.Pool behind the shim): (third alphabet, complete uses: one step = Decode, read all, fetch no / one / all nested results, read them, Close; all sequences of 3 (thorough 4) uses) (after every Close all OTHER live results and the nested results they handed out are re-read at once) every operation sequence (bounds: %s) over {Decode(input) for each input shape, ReadAll, Nested, NestedAll, ReadNested(+Close on nested, +nested-of-nested), Close} x every answer the pools may give (most-recently-put / any older pooled object / fresh) within the deviation bound, for each of 40 option combinations (mode x maxBuffer {unset,0,1,2,64} x filter {none,halve,zero,identity}). Oracle after every step: every accessor of every live handle equals the reference parse of that handle's own input; no panic; in safe mode the caller's buffer is clobbered right after Decode and every value ever handed out is re-verified after every later step. distinct_nontrivial = executions in which a pooled object was actually recycled. One execution = one state sequence; states/transitions count executions and executed operations (no state merging: no sound cheap key exists for aliasing).", plans))
 	r.Assume("closing or reading a closed handle is API misuse and outside the alphabet")
 	r.Assume("sync.Pool answers of the real runtime are a subset of the enumerated answers")
 	r.Finish()
